@@ -31,9 +31,9 @@ Record cop := mkOp {
 #[global] Instance eta_cop : Settable _ :=
   settable! mkOp <o_mid; o_kind; o_deadline; o_status; o_reply; o_items; o_taken; o_chan; o_rx; o_got; o_res>.
 
-Record fixes := mkFx { fix8 : bool; fix9 : bool; fix15 : bool; fix16 : bool }.
-Definition as_is := mkFx false false false false.
-Definition repaired := mkFx true true true true.
+Record fixes := mkFx { fix7 : bool; fix8 : bool; fix9 : bool; fix15 : bool; fix16 : bool }.
+Definition as_is := mkFx false false false false false.
+Definition repaired := mkFx true true true true true.
 
 Inductive dstatus := Running | EndedOk | EndedErr | EndedPanic.
 Record st := mkSt {
@@ -180,7 +180,7 @@ Definition step (s : st) (e : ev) : st :=
         | Some r =>
             match r_kind r with
             | RDone => updop o (fun c => c <| o_taken ::= S |> <| o_res := Some r |> <| o_rx := false |>
-                                            <| o_status := match o_kind c with KSearch true => SDone | _ => SActive end |>) s
+                                            <| o_status := match o_kind c with KSearch ad => if ad || fix7 (fx s) then SDone else SActive | _ => SActive end |>) s
             | _ => updop o (fun c => c <| o_taken ::= S |> <| o_got ::= fun l => l ++ [r] |>) s
             end
         | None =>
